@@ -584,6 +584,79 @@ fn probe_latest_deadline(cfg: &Cfg, gap_ms: u64) -> Value {
            "timeout_ms": cfg.timeout_s as u64 * 1000})
 }
 
+/// Close-with-backlog scenario: the spec's Worker_Close / Hub_HandleWorkerClose with a concretisation in
+/// which the hub still has unsent data for the worker when the hang-up arrives (a load-state with `parts`
+/// requests to a worker that never reads). MasterHub says: once the hub is idle, a worker whose channel
+/// is closed is `stopped` and no longer targeted, so a request sent afterwards to the remaining worker
+/// is answered at once. Returns the observed run states and the verdict of that later request.
+fn probe_close_backlog(cfg: &Cfg, parts: u64) -> Value {
+    let mut hub = match Hub::start(2, cfg.timeout_s) {
+        Ok(h) => h,
+        Err(e) => return json!({"kind": "probe_close_backlog", "error": e}),
+    };
+    let mut ctl = hub.connect().unwrap();
+    let mut a = hub.connect().unwrap();
+    let path = write_state_file(hub.dir(), 1, parts);
+    a.write_message(&Request { request_type: Some(RequestType::LoadState(path)) }).unwrap();
+    // worker 2 reads (and acknowledges) everything, worker 1 reads nothing
+    let t0 = Instant::now();
+    let mut seen = 0u64;
+    while seen < parts && t0.elapsed() < Duration::from_secs(20) {
+        match recv_worker(hub.workers[1].chan.as_mut().unwrap(), Duration::from_millis(200)) {
+            Recv::Msg(m) => {
+                seen += 1;
+                let _ = hub.workers[1].chan.as_mut().unwrap().write_message(&worker_response(&m.id, "ok", "fine"));
+            }
+            Recv::Timeout => {}
+            _ => break,
+        }
+    }
+    hub.close_worker(0);
+    let mut states = Vec::new();
+    for _ in 0..3 {
+        let _ = ctl.write_message(&list_workers_request());
+        if let Recv::Msg(m) = recv(&mut ctl, Duration::from_secs(5)) {
+            states = run_states(&m).unwrap_or_default().iter().map(|x| x.1.to_string()).collect();
+        }
+        std::thread::sleep(Duration::from_millis(50));
+    }
+    // a later request only concerns worker 2
+    let mut b = hub.connect().unwrap();
+    let tb = Instant::now();
+    b.write_message(&Request { request_type: Some(add_cluster(3, 1)) }).unwrap();
+    let mut later = String::from("none");
+    let mut later_ms = 0u64;
+    let limit = tb + Duration::from_secs(cfg.timeout_s as u64) + Duration::from_millis(cfg.slack_ms);
+    let mut answered = false;
+    while Instant::now() < limit {
+        if !answered {
+            if let Recv::Msg(m) = recv_worker(hub.workers[1].chan.as_mut().unwrap(), Duration::from_millis(20)) {
+                if request_tag(&m.content) == Some((3, 1)) {
+                    let _ = hub.workers[1].chan.as_mut().unwrap().write_message(&worker_response(&m.id, "ok", "fine"));
+                    answered = true;
+                }
+            }
+        }
+        match recv(&mut b, Duration::from_millis(20)) {
+            Recv::Msg(m) if status_name(m.status) != "processing" => {
+                later = status_name(m.status).to_string();
+                later_ms = tb.elapsed().as_millis() as u64;
+                break;
+            }
+            Recv::Eof | Recv::Bad(_) => break,
+            _ => {}
+        }
+    }
+    let fate = hub.finished();
+    drop(a);
+    drop(b);
+    drop(ctl);
+    let _ = hub.teardown(Duration::from_secs(4));
+    json!({"kind": "probe_close_backlog", "parts": parts, "worker2_received": seen, "wstate": states,
+           "spec_wstate": ["stopped", "running"], "later_request": later, "later_request_ms": later_ms,
+           "spec_later_request": "ok", "hub": format!("{fate:?}")})
+}
+
 fn main() {
     vh::util::quiet_panics();
     let args: Vec<String> = std::env::args().collect();
@@ -613,6 +686,11 @@ fn main() {
                 i += 1
             }
             "--verbose" => cfg.verbose = true,
+            "--probe-close-backlog" => {
+                let parts: u64 = args[i + 1].parse().unwrap();
+                vh::util::emit(&probe_close_backlog(&cfg, parts));
+                return;
+            }
             "--probe-latest" => {
                 let gap: u64 = args[i + 1].parse().unwrap();
                 vh::util::emit(&probe_latest_deadline(&cfg, gap));
